@@ -102,6 +102,16 @@ def run(ctx):
     o8(ctx, F, roles["search"])
     o7(ctx, F)
     o11(ctx, F)
+    o13(ctx, F)
+    # `stop` ends the search: the flag it clears is the flag every level of the search looks at (C07.Q7)
+    from . import p07
+    before, nv = len(ctx.instances), len(ctx.violations)
+    p07.flag_identity(ctx, F)
+    for i in ctx.instances[before:]:
+        i["rule"] = "C14.O12(" + i["rule"] + ")"
+    for v in ctx.violations[nv:]:
+        v["rule"] = "C14.O12(" + v["rule"] + ")"
+        v["key"] = "C14.O12|" + v["key"]
     # "exactly one bestmove ... at the depth limit", "neither panics nor deadlocks": the search a `go` starts must end by itself
     # at its limit and its driver must not panic or spin - the driver rules of C08 are necessary conditions here
     from . import p08
@@ -511,6 +521,48 @@ def o11(ctx, F):
                       what="the command loop returns an error when there is no search thread, on a path that is taken while no search is "
                            "running: the session ends at the first such command", expected="under `if search_is_running.load(..)`",
                       found=[(hir.fmt(x[1], 80), x[2]) for x in g if x[0] == "if"][-3:])
+
+
+def o13(ctx, F):
+    """O13 "no search is flagged" does not mean "no search thread": the timer lowers the flag too, possibly before the search thread
+    has even taken the session state.  A command that touches that state on the strength of the lowered flag (`ucinewgame`,
+    `position`, `go`, `show`) therefore first reaps the previous search thread - a `join` of the stored handle that is not itself
+    under the "a search is running" test, before the state is locked."""
+    fn = F.fn(TALK)
+    body = fn["hir"]["body"]
+    sym = hir.Sym(hir.Env(fn["hir"], F), F)
+    targets = {"ucinewgame": "uci::command_ucinewgame", "position": "uci::command_position", "go": "uci::command_go", "show": "uci::command_show"}
+    arm_of = {}
+    for m, _ in hir.walk(body):
+        if m.get("k") == "Match" and m.get("src") == "Normal":
+            for a_ in m["arms"]:
+                for cmd, callee in targets.items():
+                    if hir.calls(a_["body"], callee):
+                        arm_of.setdefault(cmd, a_["body"])     # the outermost arm: the command's own (walk is pre-order)
+    n = 0
+    for cmd, callee in sorted(targets.items()):
+        arm = arm_of.get(cmd)
+        if arm is None:
+            continue
+        n += 1
+        call = hir.calls(arm, callee)[0][0]
+        ok = False
+        for j, anc in hir.walk(arm):
+            if j.get("k") == "MethodCall" and j.get("name") == "join" and hir.order_key(j) < hir.order_key(call):
+                g = hir.guards_of(j, arm, sym) or []
+                under_flag = any(x[0] == "if" and x[2] is True and "load(search_is_running" in
+                                 hir.fmt(x[1], 200).replace("std::sync::atomic::Atomic::", "").replace("<bool>::", "") for x in g)
+                refused = any(x[0] == "if" and x[2] is True and "load(search_is_running" in
+                              hir.fmt(x[1], 200).replace("std::sync::atomic::Atomic::", "").replace("<bool>::", "")
+                              for x in (hir.guards_of(call, arm, sym) or []))
+                if not under_flag and not refused:
+                    ok = True
+        ctx.check("C14.O13", "previous-search-thread-reaped-before-the-state-is-touched:%s" % cmd, ok, fn=TALK, file=fn["file"], line=hir.line(call),
+                  what="`%s` relies on the lowered flag alone: the timer of a tiny budget lowers it before the search thread has taken the "
+                       "session state, so this command can take the state first (`go movetime 1`, `ucinewgame`: the search thread then "
+                       "unwraps a game that is gone, panics and poisons the mutex)" % cmd,
+                  expected="if let Some(t) = search_thread.take() { t.join() } outside the running test, before the lock", found=ok)
+    ctx.floor("C14.O13", "commands that touch the session state", n, 3)
 
 
 def o6b(ctx, F):
